@@ -51,7 +51,7 @@ type site struct {
 	Func  string // enclosing declaration: Recv.Name, Name, or the package-level var
 	Ord   int    // 1-based ordinal of the map range inside Func (source order)
 	Expr  string // the ranged expression
-	Class string // Comm | Sorted | Sens
+	Class string // Comm | SortedAfter | Sens
 	Why   string // what decided (first order-sensitive statement / the sort call)
 	Line  int    // not written to the Coq file
 }
@@ -278,7 +278,7 @@ func (c *classifier) classify() (string, string) {
 		}
 		sorts = append(sorts, s)
 	}
-	return "Sorted", strings.Join(sorts, "; ")
+	return "SortedAfter", strings.Join(sorts, "; ")
 }
 
 func (c *classifier) fail(n ast.Node, what string) bool {
@@ -621,7 +621,7 @@ func censusMain(outDir string, verbose bool) int {
 	}
 	if verbose {
 		for _, s := range sites {
-			fmt.Printf("%-6s %s:%d %s #%d range %s   %s\n", s.Class, s.File, s.Line, s.Func, s.Ord, s.Expr, s.Why)
+			fmt.Printf("%-11s %s:%d %s #%d range %s   %s\n", s.Class, s.File, s.Line, s.Func, s.Ord, s.Expr, s.Why)
 		}
 	}
 	changed, err := writeIfChanged(filepath.Join(outDir, "Gen_MapRanges.v"), censusCoq(sites))
@@ -633,7 +633,7 @@ func censusMain(outDir string, verbose bool) int {
 	for _, s := range sites {
 		n[s.Class]++
 	}
-	fmt.Printf("census: %d map ranges (Comm %d, Sorted %d, Sens %d); Gen_MapRanges.v %s\n", len(sites), n["Comm"], n["Sorted"], n["Sens"],
+	fmt.Printf("census: %d map ranges (Comm %d, Sorted %d, Sens %d); Gen_MapRanges.v %s\n", len(sites), n["Comm"], n["SortedAfter"], n["Sens"],
 		map[bool]string{true: "rewritten", false: "unchanged"}[changed])
 	return 0
 }
